@@ -322,7 +322,7 @@ func LargePayloads() {
 	before := env.CloneDRR(drr)
 	out1, err := sess.Decrypt(env.Ctx, *drr)
 	vx.Assert("C01.large_decrypt_ok", vx.And(err == nil, vx.BytesEq(out1, keep)))
-	vx.Assert("C01.large_record_unmodified_by_decrypt", env.SameDRR(before, drr))
+	vx.Assert("C01.large_record_unmodified_by_decrypt", sameLarge(before, drr))
 	out2, err := sess.Decrypt(env.Ctx, *drr)
 	vx.Assert("C01.large_second_decrypt_ok", vx.And(err == nil, vx.BytesEq(out2, keep)))
 	vx.Assert("C01.large_first_result_unchanged", vx.BytesEq(out1, keep))
@@ -330,6 +330,18 @@ func LargePayloads() {
 	s2, _ := f2.GetSession("p0")
 	out3, err := s2.Decrypt(env.Ctx, *drr)
 	vx.Assert("C01.large_other_process_decrypt_ok", vx.And(err == nil, vx.BytesEq(out3, keep)))
-	vx.Assert("C01.large_record_unmodified_at_end", env.SameDRR(before, drr))
+	vx.Assert("C01.large_record_unmodified_at_end", sameLarge(before, drr))
 	vx.Reach("C01.large_end")
+}
+
+// sameLarge: record comparison for large payloads - the Data bytes are compared as terms (identical symbols in
+// identical places; a semantic comparison of tens of thousands of ciphertext bytes is beyond the solver), the key
+// part as usual.
+func sameLarge(a, b *ae.DataRowRecord) bool {
+	if !vx.SameTerms(a.Data, b.Data) {
+		return false
+	}
+	ka, kb := *a, *b
+	ka.Data, kb.Data = nil, nil
+	return env.SameDRR(&ka, &kb)
 }
